@@ -50,3 +50,8 @@ brk("c03-corrupt-block-kills-fetch", "C03", "immutable/downloader/fetcher.py",
     "        if state is CORRUPT:\n            self._no_more_shares = True\n        if state in (COMPLETE, CORRUPT, DEAD, BADSEGNUM):\n            self._share_observers.pop(share, None)")
 brk("c03-k-minus-one-enough", "C03", "immutable/downloader/fetcher.py",
     "        if len(set(self._blocks.keys())) >= k:\n            # yay!", "        if len(set(self._blocks.keys())) >= k and False:\n            # yay!")
+# ---- C17 (wire level)
+brk("c17-upload-lease-from-permutation-seed", "C17", "immutable/upload.py",
+    "                seed = s.get_lease_seed()", "                seed = s.get_permutation_seed()")
+brk("c17-write-enabler-from-lease-seed", "C17", "mutable/filenode.py",
+    "        seed = server.get_foolscap_write_enabler_seed()", "        seed = server.get_lease_seed()")
